@@ -89,6 +89,7 @@ func (c08) Gen(r *Rng, tier string, run int) *Trace {
 	}
 	emit0 := func(op Op) {
 		g.emit(op, false)
+		op = g.last
 		if op.Obj == s0 && op.Tag != "hq" && op.Tag != "hc" && op.Tag != "hu" {
 			m := op
 			m.Obj = mirror
